@@ -246,7 +246,9 @@ func c02Check(r *vlib.Run, blob []byte, w *c01World, gas uint64, note string) st
 			key += fmt.Sprintf(";op=%d", op)
 		}
 	}
-	key += ";block=" + c02ExitName(cul.exitA) + ";step=" + c02ExitName(cul.exitB)
+	if cul.site == "" { // for Go panics the site and the static class say it all
+		key += ";block=" + c02ExitName(cul.exitA) + ";step=" + c02ExitName(cul.exitB)
+	}
 	site := "SingleStepInvoke~SingleStepInvokeDecodedBlocks"
 	if cul.site != "" {
 		site = cul.site
